@@ -11,12 +11,6 @@ import LopdfModel.Gen.Filters
 namespace Lopdf
 open Gen
 
-namespace Outcome
-def map {α β} (f : α → β) : Outcome α → Outcome β
-  | ok a => ok (f a)
-  | err e => err e
-  | panic s => panic s
-end Outcome
 
 /-! ## ASCII85Decode — `Stream::decode_ascii85` -/
 
